@@ -171,9 +171,12 @@ CHECKS = {
           "the link reaching the target, it returns 0, reports EXACTLY the target and leaves a truthful state - quiet decoder whose next packet ends at the reported "
           "position, or pending samples that are the samples at the reported position; (4) ov_pcm_seek_page under the same hypotheses reports the position where the first following packet ends and the next fetch leaves the handle in sync there ; (5) ov_raw_seek - into the link being decoded or into another link, also from a handle without decoder - onto a page that is not its last and carries a granule position, followed by an intact run, reports the position where the first packet of that run ends and lands the handle the same way (Seek_lemmas.v: invariants of the packet-discarding and the sample-discarding "
           "loop by induction, the landing facts of ov_pcm_seek_page derived, hypotheses packaged as the executable test seek_hyps). The per-run check evaluates "
-          "seek_hyps in the extracted model for every sample seek it performs (it held for 30-55 % of them) and demands success and position = target from the "
-          "real code there. NOT theorems: byte seeks that land on a link's last page, the continued-packet fallback, seeks finishing inside the last "
-          "page (end-of-stream trim); half rate is proved separately (C20, SeekH_lemmas.v); the rest is checked per run by replaying random seek/read histories on chained files against the model (return "
+          "seek_hyps in the extracted model for every sample seek it performs and demands success and position = target from the "
+          "real code there; (7) the same up to the very END of the link (SeekE_lemmas.v): the run may close with the link's end-of-stream packet, whose granule "
+          "position cuts the last block short - proved for every landing whose first packet carries its granule position (all landings but the beginning-of-link one), "
+          "executable hypotheses seek_hyps_e; together the two tests held for 49 % (C07 histories, damaged files included) to 88 % (C08, intact files) of the sample seeks of a run. "
+          "NOT theorems: byte seeks that land on a link's last page, the continued-packet fallback, a beginning-of-link landing whose target lies in the "
+          "end-of-stream packet's block; half rate is proved separately (C20, SeekH_lemmas.v); the rest is checked per run by replaying random seek/read histories on chained files against the model (return "
           "code, positions, state, link) and by comparing every read bit for bit with an independent packet-level decode at the reported position.",
   "note": VF_NOTE,
   "technique": "Coq model + partial proof (consuming step; linear-read synchronisation invariant; sample, page and byte seeks exact/truthful on intact runs); step-by-step correspondence of extracted model vs lib/vorbisfile.c; bit-exact position oracle",
@@ -182,11 +185,13 @@ CHECKS = {
   "category": "proof",
   "text": "Proved on VFile.v: out-of-range arguments are rejected with the state untouched; the page a page-granularity seek lands on is the LAST page of the "
           "link (in the search range) whose granule position is set and below the target; link selection; a successful page seek lands inside the selected "
-          "link at or before the target for ANY page table; the sample-accurate seek lands EXACTLY on the target whenever the executable hypotheses seek_hyps hold "
-          "(intact run from the landing point reaching the target, full rate; evaluated per run for every sample seek). Exact landing for EVERY target 0..L of small chained "
+          "link at or before the target for ANY page table; the sample-accurate seek lands EXACTLY on the target whenever the executable hypotheses seek_hyps or seek_hyps_e hold "
+          "(intact run from the landing point reaching the target - seek_hyps_e: up to and including the link's end, through the end-of-stream packet's trimmed block; "
+          "full rate; evaluated per run for every sample seek, 88 % of them); a sample seek to the END of the last link followed by a read reports end of file "
+          "(seek_end_hyps: nothing follows the run, its end-of-stream packet names the target; demanded from the real code wherever it holds). Exact landing for EVERY target 0..L of small chained "
           "files (after random prior ops), time seeks, and end-of-file behaviour are checked on each run against the model and the property itself.",
   "note": VF_NOTE,
-  "technique": "Coq proof (landing page maximality, argument validation) + exhaustive-target correspondence vs lib/vorbisfile.c",
+  "technique": "Coq proof (landing page maximality, argument validation, exact landing up to the link end, end of file after a seek to the end) + exhaustive-target correspondence vs lib/vorbisfile.c",
  },
  "C09": {
   "category": "proof",
